@@ -212,14 +212,33 @@ def rule_counter_reachability(ctx, rid, file_re, reason=""):
         ctx.check(want in closure(F.m), rid, F, "%s reaches an item-counter %s" % (F.q.split("::")[-1], "increment" if want == "++" else "decrement"),
                   None, detail="the class maintains an item counter but this operation never changes it: size()/empty() drift. " + reason,
                   sig="api-reaches-counter:%s" % want)
-    # (c)
+    # (c) - only effects inside the same container class count: the item counter of an underlying list (e.g. IterableList below a split
+    # list, which counts its dummy nodes) is another object's counter
+    def owner(q):
+        return "::".join(q.split("::")[:3])
+    memo2 = {}
+
+    def closure_same(m, own, depth=0):
+        key = (m, own)
+        if key in memo2:
+            return memo2[key]
+        memo2[key] = set()
+        F = by_m.get(m)
+        if F is None or depth > 5:
+            return set()
+        res = set(ops.get(m, ()))
+        for _, _, e in F.all_elements():
+            if e.get("k") in ("call", "ctor", "lambda") and e.get("m") in by_m and e["m"] != m and owner(by_m[e["m"]].q) == own:
+                res |= closure_same(e["m"], own, depth + 1)
+        memo2[key] = res
+        return res
     groups = {}
     for F in funcs:
         groups.setdefault(F.q, {}).setdefault(F.file, []).append(F)
     for q, byfile in groups.items():
         if len(byfile) < 2:
             continue
-        has = {f: any(closure(F.m) for F in fs) for f, fs in byfile.items()}      # counts itself or through its callees
+        has = {f: any(closure_same(F.m, owner(F.q)) for F in fs) for f, fs in byfile.items()}      # counts itself or through its own class's members
         if any(has.values()) and not all(has.values()):
             for f, fs in byfile.items():
                 if not has[f]:
